@@ -20,7 +20,8 @@ RULE = ("Hypothesis draws a history (<= 12 steps, <= 5 solves) over the alphabet
         "with new variable objects and performs the same call; status, raised exception type, values, objective "
         "(1e-9), variable names and get_bounds() must be equal.  Non-trivial = >= 2 solves with an edit between "
         "them that changes the fresh answer."
-        '  Also: `flip` (same objective object, opposite sense), histories that add constraints and read variables before the first objective, and histories that start with completely free variables.')
+        '  Also: `flip` (same objective object, opposite sense), histories that add constraints and read variables before the first objective, and histories that start with completely free variables.'
+        " Also (round 6): the objective pair (1, 11) whose swap keeps width, first and last variable and moves a kept row's variable to another column; BFGS (a method that takes no bounds) in the method alphabet.")
 BUDGET = {"quick": {"workers": 16, "examples": 40}, "thorough": {"workers": 16, "examples": 800}}
 ASSUMPTIONS = ["optyx + SciPy are deterministic for identical inputs, so edited and fresh problems must agree to rounding"]
 MANIFEST = {
